@@ -23,6 +23,21 @@ except Exception:
     pass
 import warnings; warnings.simplefilter('ignore')
 from geophires_monte_carlo import MC_GeoPHIRES3
+_succ = os.environ.get('GXV_MC_SUCCESS_LOG')
+if _succ:
+    # harness-side observation (inherited by the forked workers): one byte per simulation that returned a result
+    def _counted(fn):
+        def call(*a, **k):
+            r = fn(*a, **k)
+            fd = os.open(_succ, os.O_WRONLY | os.O_APPEND | os.O_CREAT)
+            try:
+                os.write(fd, b'1')
+            finally:
+                os.close(fd)
+            return r
+        return call
+    MC_GeoPHIRES3.GeophiresXClient.get_geophires_result = _counted(MC_GeoPHIRES3.GeophiresXClient.get_geophires_result)
+    MC_GeoPHIRES3.HipRaXClient.get_hip_ra_result = _counted(MC_GeoPHIRES3.HipRaXClient.get_hip_ra_result)
 _slow = os.environ.get('GXV_MC_SLOW_WRITES')
 if _slow:
     # injected schedule fault (harness-side, inherited by the forked workers): the row append is made non-atomic - written in
@@ -146,6 +161,8 @@ def run_mc(s, workdir, timeout=900):
     env = dict(os.environ, TMPDIR=workdir, MPLBACKEND='Agg', PYTHONDONTWRITEBYTECODE='1', OMP_NUM_THREADS='1', OPENBLAS_NUM_THREADS='1')
     env.pop('PYTHONPATH', None)
     env.pop('GXV_MC_SLOW_WRITES', None)
+    succ = os.path.join(workdir, 'successful_simulations.log')
+    env['GXV_MC_SUCCESS_LOG'] = succ
     if s.get('slow_writes'):
         env['GXV_MC_SLOW_WRITES'] = '%d,%d' % tuple(s['slow_writes'])
     pr = subprocess.run([sys.executable, '-c', RUNNER % {'src': SRC_DIR}, str(s['workers']), code, base, sett, out], cwd=workdir,
@@ -155,6 +172,7 @@ def run_mc(s, workdir, timeout=900):
         if ln.startswith('GXVJSON'):
             res = json.loads(ln[7:])
     res['paths'] = {'base': base, 'settings': sett, 'out': out}
+    res['successes'] = os.path.getsize(succ) if os.path.exists(succ) else 0
     if os.path.exists(out):
         with open(out) as f:
             lines = f.read().split('\n')
